@@ -13,7 +13,7 @@ func contextCheck(r *vrt.Result) string {
 	if len(r.Panics) > 0 {
 		return fmt.Sprintf("panic: %s in T%s", r.Panics[0].Msg, r.Panics[0].Thread)
 	}
-	nf, phase1, sawPhase1, end := 0, false, false, false
+	nf, phase1, sawPhase1, end, phase2 := 0, false, false, false, true
 	fBeforePhase1 := 0
 	for _, e := range r.Events {
 		switch e.Kind {
@@ -37,6 +37,8 @@ func contextCheck(r *vrt.Result) string {
 		case "phase1":
 			sawPhase1 = true
 			phase1 = e.Args[0].(bool)
+		case "phase2":
+			phase2 = e.Args[0].(bool)
 		case "end":
 			end = true
 		}
@@ -57,8 +59,11 @@ func contextCheck(r *vrt.Result) string {
 		if !phase1 && fBeforePhase1 != 0 {
 			return "f-spurious: the chained function ran although neither context was cancelled"
 		}
-		if nf != 1 {
-			return fmt.Sprintf("f-count: the chained function ran %d times after both contexts were cancelled", nf)
+		if phase2 && nf != 1 {
+			return fmt.Sprintf("f-count: the chained function ran %d times after the contexts were cancelled", nf)
+		}
+		if !phase2 && nf != 0 {
+			return "f-spurious: the chained function ran although neither context can be cancelled"
 		}
 	}
 	if len(r.Leaked) > 0 {
